@@ -14,6 +14,8 @@ import GrinVerif.Drv.KeysD
 import GrinVerif.Drv.CodecD
 import GrinVerif.Drv.ConcD
 import GrinVerif.Drv.CrashD
+import GrinVerif.Drv.DesegD
+import GrinVerif.Drv.NrdD
 /-! Line-protocol driver: stdin lines `<domain> <op> <args…> => <impl result>`;
 for each line prints `ok`, `FAIL n model=… impl=…`, `DIFF n model=… impl=…`, `UNK n`. -/
 open GV GV.Drv
@@ -34,6 +36,8 @@ structure DState where
   codec : CodecD.St := {}
   conc : ConcD.St := {}
   crash : CrashD.St := {}
+  deseg : DesegD.St := {}
+  nrd : NrdD.St := {}
 
 def dispatch (s : DState) (dom : String) (args : List String) (impl : String) : DState × Verdict :=
   match dom with
@@ -52,6 +56,8 @@ def dispatch (s : DState) (dom : String) (args : List String) (impl : String) : 
   | "codec" => let (st, v) := CodecD.handle s.codec args impl; ({ s with codec := st }, v)
   | "conc" => let (st, v) := ConcD.handle s.conc args impl; ({ s with conc := st }, v)
   | "crash" => let (st, v) := CrashD.handle s.crash args impl; ({ s with crash := st }, v)
+  | "deseg" => let (st, v) := DesegD.handle s.deseg args impl; ({ s with deseg := st }, v)
+  | "nrd" => let (st, v) := NrdD.handle s.nrd args impl; ({ s with nrd := st }, v)
   | _ => (s, .unknown)
 
 partial def loop (h : IO.FS.Stream) (out : IO.FS.Stream) (s : DState) (n ok fail diff unk : Nat) : IO Unit := do
